@@ -9,6 +9,8 @@
    checked on the implementation by the boundary-stream monitor (partial). *)
 From Coq Require Import QArith Qminmax List Bool Arith.
 From WSI Require Import Vqip Pow Tank Arc QTank Distrib Run TankLaws ArcLaws QueueLaws DistribLaws.
+From WSI Require DivBaseline DivSites.
+From WSI.gen Require GenDivs.
 Import ListNotations.
 Open Scope Q_scope.
 
@@ -25,3 +27,12 @@ Theorem C12_pull_from_empty_store : forall t v c, conserved c -> nonneg (t_sto t
   vol (snd (t_pull t v)) <= v.
 Proof. exact t_pull_spec. Qed.
 Print Assumptions C12_pull_from_empty_store.
+
+(* ---- every division of the library (table regenerated from the source on every run, T4) ----
+   is one of the reviewed sites: same function, same divisor, same guarding conditions.  A division that
+   appears, changes its divisor or loses a guard breaks this obligation; the boundary-stream monitors
+   then look for the input on which it raises. *)
+Theorem C12_every_division_site_is_a_reviewed_one : forall r,
+  In r WSI.gen.GenDivs.div_sites -> In r WSI.DivBaseline.reviewed_sites.
+Proof. exact WSI.DivSites.division_sites_reviewed_forall. Qed.
+Print Assumptions C12_every_division_site_is_a_reviewed_one.
